@@ -421,3 +421,20 @@ def run_daemon_in_namespace(binary, args, wait_s=6.0):
     if p.returncode != 0 or not p.stdout.strip():
         raise CheckError("namespace run failed (%d): %s" % (p.returncode, p.stderr[-1500:]))
     return json.loads(p.stdout.strip().splitlines()[-1])
+
+
+def run_lines_in_namespace(binary, lines, timeout=900):
+    """Like run_lines, but the harness runs in a private mount namespace with an empty tmpfs on /run
+    (so that it can own /var/run/chrony/chronyd.sock)."""
+    data = "\n".join(lines) + "\n"
+    cmd = ["timeout", str(timeout), "unshare", "-m", "sh", "-c",
+           "mount -t tmpfs tmpfs /run && mkdir -p /run/chrony && exec '%s' lines" % binary]
+    p = subprocess.run(cmd, input=data, stdout=subprocess.PIPE, stderr=subprocess.PIPE, text=True, env=ENV, timeout=timeout + 30)
+    if p.returncode != 0:
+        raise CheckError("%s (in namespace) exited %d: %s" % (binary, p.returncode, p.stderr[-3000:]))
+    out = p.stdout.split("\n")
+    if out and out[-1] == "":
+        out.pop()
+    if len(out) != len(lines):
+        raise CheckError("%s: %d result lines for %d cases\n%s" % (binary, len(out), len(lines), p.stderr[-2000:]))
+    return out
